@@ -184,8 +184,16 @@ def _analyse(F):
         ent = dict(ps)
         ent["errors"] = []
         try:
-            b, loop, m, arms = decode_arms(F, ps["decode"], ps["path"])
-            ent.update({"dec_body": b, "loop": loop, "match": m, "arms": arms})
+            tab, loop = probe_table(F, ps["decode"])
+            arms = []
+            for v, r in tab.items():
+                if v == "<unknown>":
+                    continue
+                if r["outcome"][0] == "undecided":
+                    raise AnchorLost("property %s: %s" % (v, r["outcome"][1]))
+                flds = [f for f, _v in r["stores"]] + list(r["pushes"])
+                arms.append({"variants": [v], "fields": flds, "diverges": r["outcome"] != ("continue",), "arm": loop, "reads": r["reads"]})
+            ent.update({"loop": loop, "match": loop, "arms": arms, "probe": tab})
             nargs = len(F.fns[ps["decode"]]["thir"]["params"])
             it = summarise_decoder(F, ps["decode"], [Opaque("reader")] + [Opaque("packet_type")] * (nargs - 1),
                                    summarise_props=False)
@@ -377,8 +385,8 @@ def t_propid(F, R):
             continue
         name = ent["name"]
         fields = struct_fields(ent["adt"])
-        head, per_arm, last = _arm_reads(ent["read"].loops[0]["reads"]) if ent["read"].loops else ([], {}, None)
-        R.check(head == ["byte"], "T-propid", "%s/id-read" % name, "%s: the property identifier is read as %s" % (name, head), where=ent["decode"])
+        per_arm = {a["variants"][0]: a["reads"] for a in ent["arms"] if not a["diverges"]}
+        last = per_arm.get("UserProperty")
         for e in ent["enc_entries"]:
             n += 1
             v = by_val.get(e["id"])
@@ -700,3 +708,261 @@ def _byte_guard(body):
             if not any(y.get("k") == "Assign" for y in walk_all(x["then"])):
                 return True
     return False
+
+
+# ==== dispatch probing with the partial evaluator ========================================================================
+from peval import PE, Sym, Adt, Tup, Undecided, ok as pe_ok, err as pe_err, NONE as PE_NONE, UNIT as PE_UNIT
+from r_pe import result_kind, unwrap_common
+
+READ_PRIMS = {"common::utils::read_u8": "byte", "common::utils::read_u16": "u16", "common::utils::read_u32": "u32",
+              "common::utils::read_string": "utf8", "common::utils::read_bytes": "binary", "common::utils::decode_var_int": "varint"}
+
+
+def prop_loop_body(F, fid):
+    b = nbody(F, fid)
+    if b is None:
+        raise AnchorLost("no body for %s" % fid)
+    for n in walk_all(b):
+        if n.get("k") == "While":
+            for x in walk_all(n["body"]):
+                if x.get("k") == "Call" and (x["fn"].get("res") or x["fn"].get("def")) == "v5::types::PropertyId::from_u8":
+                    return b, n
+    raise AnchorLost("%s: property loop (a while loop that parses a PropertyId)" % fid)
+
+
+def probe(F, loop, id_byte, dup=False, value_byte=None):
+    """Evaluate one iteration of a property loop for a given identifier byte.
+    Returns {"outcome": ('continue',) | ('err', variant, payload values) | ('other', ..), "reads": [...], "stores": [...]}"""
+    reads = []
+    pushes = []
+    state = {"n_u8": 0}
+
+    def hook(d, res, args, node, env):
+        r = res or d
+        if r in READ_PRIMS:
+            kind = READ_PRIMS[r]
+            if kind == "byte":
+                state["n_u8"] += 1
+                if state["n_u8"] == 1:
+                    return pe_ok(id_byte)
+                reads.append(kind)
+                return pe_ok(value_byte if value_byte is not None else Sym(("read", len(reads))))
+            reads.append(kind)
+            if kind == "varint":
+                return pe_ok(Tup([Sym(("read", len(reads))), Sym("nbytes")]))
+            return pe_ok(Sym(("read", len(reads))))
+        if r == "common::utils::var_int_len":
+            return pe_ok(Sym("varlen"))
+        if r.endswith("::try_from") or r.endswith("TryFrom<alloc::string::String>>::try_from") or r.endswith("TryFrom<u32>>::try_from"):
+            return pe_ok(Sym(("validated", repr(args[0]))))
+        if node["fn"].get("name") == "push" and args and isinstance(args[0], Sym) and isinstance(args[0].tag, tuple) and args[0].tag[0] == "field":
+            pushes.append(args[0].tag[2])
+            return PE_UNIT
+        return None
+
+    def cond(what, node):
+        k = what[0]
+        if k == "truth":
+            v = what[1]
+            tag = getattr(v, "tag", None)
+            if isinstance(tag, tuple) and tag and tag[0] == "call" and tag[1].endswith("::is_some"):
+                return dup
+            if isinstance(tag, tuple) and tag and tag[0] == "call" and tag[1].endswith("::is_none"):
+                return not dup
+            return False
+        if k == "pat-variant":
+            if what[2] == "core::option::Option":
+                return what[3] == "Some"
+            if what[2] == "core::result::Result":
+                return what[3] == "Ok"
+            return False
+        if k == "try-ok":
+            return True
+        if k == "cmp":
+            return False
+        return False
+    pe = PE(F, call_hook=hook, cond_hook=cond)
+    env = {}
+    out = None
+    from peval import _Ret, _Brk, _Cont
+    try:
+        pe.ev(loop["body"], env)
+        out = ("continue",)
+    except _Cont:
+        out = ("continue",)
+    except _Brk:
+        out = ("break",)
+    except _Ret as r:
+        k = result_kind(r.v)
+        if k[0] == "err" and isinstance(k[1], Adt):
+            out = ("err", k[1].variant, [k[1].fields[x] for x in sorted(k[1].fields)])
+        else:
+            out = ("return", repr(r.v))
+    except Undecided as e:
+        out = ("undecided", str(e))
+    stores = []
+    for ev in pe.events:
+        if ev[0] == "store":
+            tag = ev[1]
+            if isinstance(tag, tuple) and tag[0] == "field":
+                stores.append((tag[2], ev[2]))
+        elif ev[0] == "panic":
+            stores.append(("<panic>", ev[1]))
+    return {"outcome": out, "reads": reads, "stores": stores, "pushes": pushes, "events": pe.events}
+
+
+def probe_table(F, fid):
+    """variant -> probe result for every PropertyId variant (and one unknown id) of a property loop."""
+    cache = getattr(F, "_probe_cache", None)
+    if cache is None:
+        cache = F._probe_cache = {}
+    if fid in cache:
+        return cache[fid]
+    discr = enum_discriminants(F, PROP_ID)
+    _b, loop = prop_loop_body(F, fid)
+    tab = {}
+    for v, d in sorted(discr.items(), key=lambda kv: kv[1]):
+        val = 0 if d in S.BOOL_PROPERTIES else None
+        r = probe(F, loop, d, value_byte=val)
+        r["dup"] = probe(F, loop, d, dup=True, value_byte=val)
+        if d in S.BOOL_PROPERTIES:
+            r["byte"] = {b: probe(F, loop, d, value_byte=b) for b in (0, 1, 2, 255)}
+        tab[v] = r
+    unknown = next(b for b in range(256) if b not in discr.values())
+    tab["<unknown>"] = probe(F, loop, unknown)
+    cache[fid] = (tab, loop)
+    return cache[fid]
+
+
+def _ctx_ok(v):
+    return isinstance(v, Sym) and (v.tag == ("var", "packet_type") or v.tag == ("field", ("var", "header"), "typ"))
+
+
+def t_props(F, R):   # noqa: F811  (supersedes the pattern-based version above)
+    """Per packet: the set of property identifiers whose loop iteration continues (is accepted) equals the
+    specification's set; every other known identifier is rejected with InvalidProperty(packet type, id) /
+    InvalidWillProperty(id) carrying that very id; unknown identifiers with InvalidPropertyId(byte)."""
+    discr, ents = _analyse(F)
+    sites = [(e["name"], e["packet"], e["decode"]) for e in ents]
+    if any(x.get("k") == "While" for x in walk_all(nbody(F, "v5::subscribe::Unsubscribe::decode_async"))):
+        try:
+            prop_loop_body(F, "v5::subscribe::Unsubscribe::decode_async")
+            sites.append(("Unsubscribe-inline", "Unsubscribe", "v5::subscribe::Unsubscribe::decode_async"))
+        except AnchorLost:
+            pass
+    n = 0
+    for name, packet, fid in sites:
+        try:
+            tab, loop = probe_table(F, fid)
+        except AnchorLost as e:
+            R.fail("T-props", "%s/anchor-lost" % name, str(e), where=fid)
+            continue
+        want = S.props_of(packet)
+        for v, d in sorted(discr.items(), key=lambda kv: kv[1]):
+            n += 1
+            out = tab[v]["outcome"]
+            key = "%s/%s" % (name, v)
+            if d in want:
+                R.check(out == ("continue",), "T-props", key,
+                        "%s: property %s (%#04x) is allowed in %s by the specification but decoding it gives %s" % (name, v, d, packet.upper(), out[:2]), where=loc(loop))
+            else:
+                wv = "InvalidWillProperty" if packet == "Will" else "InvalidProperty"
+                ok = out[0] == "err" and out[1] == wv
+                if ok:
+                    pay = out[2]
+                    idv = pay[-1]
+                    ok = isinstance(idv, Adt) and idv.variant == v and (wv == "InvalidWillProperty" or (len(pay) == 2 and _ctx_ok(pay[0])))
+                R.check(ok, "T-props", key,
+                        "%s: property %s (%#04x) is not allowed in %s; documented rejection is %s(.., %s) but decoding it gives %s" % (
+                            name, v, d, packet.upper(), wv, v, out), where=loc(loop))
+        u = tab["<unknown>"]["outcome"]
+        R.check(u[0] == "err" and u[1] == "InvalidPropertyId" and isinstance(u[2][0], int), "T-props", "%s/unknown-id" % name,
+                "%s: an unknown property identifier gives %s (documented: InvalidPropertyId(byte))" % (name, u), where=loc(loop))
+    R.floor("T-props", "(packet, property id) decisions", n, 14 * 27)
+
+
+def h_dup(F, R):   # noqa: F811
+    """A second occurrence of a non-repeatable property is rejected with DuplicatedProperty(id) before
+    anything is read (evaluated per accepted property with the target field already set)."""
+    discr, ents = _analyse(F)
+    n = 0
+    for ent in ents:
+        try:
+            tab, loop = probe_table(F, ent["decode"])
+        except AnchorLost as e:
+            R.fail("H-dup", "%s/anchor-lost" % ent["name"], str(e), where=ent["decode"])
+            continue
+        for v, r in tab.items():
+            if v in ("<unknown>", "UserProperty") or r["outcome"] != ("continue",):
+                continue
+            n += 1
+            d = r["dup"]
+            out = d["outcome"]
+            ok = out[0] == "err" and out[1] == "DuplicatedProperty" and isinstance(out[2][0], Adt) and out[2][0].variant == v and not d["reads"] and not d["stores"]
+            R.check(ok, "H-dup", "%s/%s" % (ent["name"], v),
+                    "%s: a repeated %s gives %s after reading %s (documented: DuplicatedProperty(%s) before the value is read)" % (
+                        ent["name"], v, out, d["reads"], v), where=loc(loop))
+        up = tab.get("UserProperty")
+        if up and up["outcome"] == ("continue",):
+            R.check(up["pushes"] == ["user_properties"] and up["dup"]["outcome"] == ("continue",), "H-dup", "%s/UserProperty-repeatable" % ent["name"],
+                    "%s: user properties are not accumulated (%s)" % (ent["name"], up["pushes"]), where=loc(loop))
+    R.floor("H-dup", "non-repeatable properties", n, 50)
+
+
+def h_bytevals(F, R):   # noqa: F811
+    """Byte properties restricted to {0,1}: values 2 and 255 are rejected with InvalidByteProperty(id, value)
+    and nothing is stored; 0 and 1 are stored."""
+    discr, ents = _analyse(F)
+    n = 0
+    for ent in ents:
+        try:
+            tab, loop = probe_table(F, ent["decode"])
+        except AnchorLost:
+            continue
+        for v, r in tab.items():
+            if "byte" not in r or r["outcome"] != ("continue",):
+                continue
+            n += 1
+            for b, pr in r["byte"].items():
+                out = pr["outcome"]
+                if b > 1:
+                    ok = out[0] == "err" and out[1] == "InvalidByteProperty" and isinstance(out[2][0], Adt) and out[2][0].variant == v and out[2][1] == b and not pr["stores"]
+                    R.check(ok, "H-bytevals", "%s/%s/%d" % (ent["name"], v, b),
+                            "%s: %s with value %d gives %s, stores %s (documented: InvalidByteProperty(%s, %d))" % (ent["name"], v, b, out, pr["stores"], v, b), where=loc(loop))
+                else:
+                    ok = out == ("continue",) and len(pr["stores"]) == 1
+                    if ok:
+                        val = pr["stores"][0][1]
+                        inner = val.fields.get("0") if isinstance(val, Adt) and val.variant == "Some" else None
+                        ok = inner == bool(b) or (isinstance(inner, Adt) and inner.variant == "Level%d" % b)
+                    R.check(ok, "H-bytevals", "%s/%s/%d" % (ent["name"], v, b),
+                            "%s: %s with value %d gives %s and stores %s" % (ent["name"], v, b, out, pr["stores"]), where=loc(loop))
+    R.floor("H-bytevals", "restricted byte properties", n, 9)
+
+
+def h_proplen(F, R):   # noqa: F811
+    """The declared property length is compared for equality with the accounted length on every accepting
+    path: the read-side summary leaves no unconstrained loop-exit value, and the block consumes exactly
+    var-int(P) + P bytes."""
+    discr, ents = _analyse(F)
+    n = 0
+    for ent in ents:
+        it = ent.get("read")
+        if it is None:
+            R.fail("H-proplen", "%s/anchor-lost" % ent["name"], "cannot summarise %s" % ent["decode"], where=ent["decode"])
+            continue
+        n += 1
+        R.check(not it.free_syms, "H-proplen", "%s/exact-length-check" % ent["name"],
+                "%s: after the property loop the accounted length is never required to equal the declared one "
+                "(no `declared != accounted -> Err(InvalidPropertyLength)`): a block that does not exactly fill its declared length is accepted" % ent["name"],
+                where=ent["decode"])
+    fid = "v5::subscribe::Unsubscribe::decode_async"
+    try:
+        it = summarise_decoder(F, fid, [Opaque("reader"), PathVal(("header",))])
+        if it.loops and any("property_len" in l["cond"] or "expected" in l["cond"] for l in it.loops) or len(it.loops) > 1:
+            n += 1
+            R.check(not it.free_syms, "H-proplen", "Unsubscribe-inline/exact-length-check",
+                    "v5 Unsubscribe::decode_async: the accounted property length is never required to equal the declared one", where=fid)
+    except Unsupported as e:
+        R.fail("H-proplen", "Unsubscribe-inline/unsupported", "cannot summarise %s: %s" % (fid, e), where=fid)
+    R.floor("H-proplen", "property loops", n, 15)
